@@ -232,7 +232,7 @@ func (e *Exec) instr(f *frame, st *State, ins ssa.Instruction) bool {
 		for _, r := range x.Results {
 			vals = append(vals, e.value(f, r))
 		}
-		f.rets = append(f.rets, retInfo{cond: st.Reach, vals: vals, st: st.clone()})
+		f.rets = append(f.rets, retInfo{cond: st.Reach, vals: vals, st: st.clone(), pos: e.position(x.Pos())})
 		return true
 	case *ssa.Panic:
 		e.panicObl(f, st, "explicit-panic", "false", x)
@@ -295,6 +295,7 @@ func (e *Exec) execAlloc(f *frame, st *State, x *ssa.Alloc) {
 	r := e.allocRef(st, f.prefix+x.Name())
 	e.allAllocs[r] = true
 	e.zeroInit(st, r, pt.Elem())
+	e.ghostInit(st, r, pt.Elem())
 	v := Val{T: r, Ty: tyOfGo(x.Type())}
 	f.vals[x] = v
 }
@@ -600,4 +601,16 @@ func (e *Exec) execNext(f *frame, st *State, x *ssa.Next) {
 		e.assume(inv)
 	}
 	f.vals[x] = Val{Tuple: []Val{{T: okc, Ty: tyBool}, {T: k, Ty: kty}, rv}, Ty: tyOfGo(x.Type())}
+}
+
+// ghostInit: ghost state attached to freshly allocated objects of library types whose contents are
+// modelled by a ghost variable (a zero strings.Builder is empty).
+func (e *Exec) ghostInit(st *State, ref string, t types.Type) {
+	switch types.TypeString(t, nil) {
+	case "strings.Builder", "bytes.Buffer":
+		if _, ok := e.W.Ghosts["Bld"]; ok {
+			e.regHeap("G.Bld", "(Array Int String)")
+			e.assume(eq(app("select", e.get(st, "G.Bld"), ref), "\"\""))
+		}
+	}
 }
